@@ -13,7 +13,9 @@ import (
 
 	"github.com/go-kit/log"
 	"github.com/oklog/ulid/v2"
+	"github.com/prometheus/common/model"
 	"github.com/prometheus/prometheus/model/labels"
+	"github.com/prometheus/prometheus/model/relabel"
 	"github.com/prometheus/prometheus/storage"
 	"github.com/prometheus/prometheus/tsdb"
 	"github.com/prometheus/prometheus/tsdb/chunkenc"
@@ -36,6 +38,32 @@ type sample struct {
 type cseries struct {
 	lset   labels.Labels
 	chunks [][]sample
+}
+
+// relabelConfigs: the relabel modifier placed before the deletion modifier (phase 2).
+func relabelConfigs(kind string) []*relabel.Config {
+	mk := func(a relabel.Action, src, re, target, repl string) *relabel.Config {
+		c := &relabel.Config{Action: a, Regex: relabel.MustNewRegexp(re), TargetLabel: target, Replacement: repl, NameValidationScheme: model.UTF8Validation}
+		if src != "" {
+			c.SourceLabels = model.LabelNames{model.LabelName(src)}
+		}
+		return c
+	}
+	switch kind {
+	case "dropb":
+		return []*relabel.Config{mk(relabel.LabelDrop, "", "b", "", "")}
+	case "mapa":
+		return []*relabel.Config{mk(relabel.Replace, "a", "1|2", "a", "0")}
+	case "dropa2":
+		return []*relabel.Config{mk(relabel.Drop, "a", "2", "", "")}
+	case "dropenv":
+		return []*relabel.Config{mk(relabel.LabelDrop, "", "env", "", "")}
+	case "mapjob":
+		return []*relabel.Config{mk(relabel.Replace, "job", "api|db", "job", "svc")}
+	case "dropdev":
+		return []*relabel.Config{mk(relabel.Drop, "env", "dev", "", "")}
+	}
+	return nil
 }
 
 const caseLabel = "zcase" // sorts after every generated label name
@@ -99,7 +127,14 @@ func concretise(c vt.Case, key string) *concrete {
 			jch = append(jch, js)
 		}
 		out.series = append(out.series, cs)
-		out.jser = append(out.jser, map[string]any{"labels": jl, "chunks": jch})
+		// what relabelling gives this series: Prometheus' relabel.Process is the (trusted) oracle
+		jt := []any{}
+		to := cs.lset
+		if rc := relabelConfigs(vt.Str(c["relabel"])); rc != nil {
+			to, _ = relabel.Process(cs.lset.Copy(), rc...)
+		}
+		to.Range(func(l labels.Label) { jt = append(jt, map[string]any{"n": l.Name, "v": l.Value}) })
+		out.jser = append(out.jser, map[string]any{"labels": jl, "chunks": jch, "to": jt})
 	}
 	for _, x := range vt.List(c["reqs"]) {
 		q := vt.Map(x)
@@ -232,14 +267,24 @@ func readBlock(bDir string) (map[string][]any, error) {
 	return out, all.Err()
 }
 
-type nopChanges struct{}
+// changes records the ChangeLogger calls of one rewrite.
+type changes struct{ del []any }
 
-func (nopChanges) DeleteSeries(labels.Labels, tombstones.Intervals) {}
-func (nopChanges) ModifySeries(labels.Labels, labels.Labels)        {}
+func (c *changes) DeleteSeries(l labels.Labels, ivs tombstones.Intervals) {
+	jl, ji := []any{}, []any{}
+	l.Range(func(x labels.Label) { jl = append(jl, map[string]any{"n": x.Name, "v": x.Value}) })
+	for _, iv := range ivs {
+		ji = append(ji, map[string]any{"lo": iv.Mint, "hi": iv.Maxt})
+	}
+	c.del = append(c.del, map[string]any{"labels": jl, "ivs": ji})
+}
+func (c *changes) ModifySeries(labels.Labels, labels.Labels) {}
 
 // rewrite runs the real compactv2 rewrite with the deletion modifier over one block holding the
 // series of all the given cases and returns, per case key, the series of the rewritten block.
-func rewrite(dir string, cs []*concrete) (res map[string][]any, err error) {
+func rewrite(dir string, cs []*concrete, relabelKind string, withDry bool) (res map[string][]any, clog []any, dry map[string]any, err error) {
+	dry = map[string]any{"ran": false, "log": []any{}, "wrote": false}
+	clog = []any{}
 	defer func() {
 		if r := recover(); r != nil {
 			err = fmt.Errorf("panic: %v", r)
@@ -254,42 +299,75 @@ func rewrite(dir string, cs []*concrete) (res map[string][]any, err error) {
 	}
 	res = map[string][]any{}
 	if len(all) == 0 {
-		return res, nil
+		return res, clog, dry, nil
 	}
 	inID, outID := ulid.MustNew(1, nil), ulid.MustNew(2, nil)
 	inDir, outDir := filepath.Join(dir, inID.String()), filepath.Join(dir, outID.String())
 	if err := os.MkdirAll(inDir, 0o755); err != nil {
-		return nil, err
+		return nil, clog, dry, err
 	}
 	if err := createBlock(inDir, all); err != nil {
-		return nil, fmt.Errorf("harness: create block: %w", err)
+		return nil, clog, dry, fmt.Errorf("harness: create block: %w", err)
 	}
 	if err := (metadata.Meta{BlockMeta: tsdb.BlockMeta{Version: 1, ULID: inID}}).WriteToDir(logger, inDir); err != nil {
-		return nil, err
+		return nil, clog, dry, err
 	}
 	pool := chunkenc.NewPool()
 	b, err := tsdb.OpenBlock(logutil.GoKitLogToSlog(logger), inDir, pool, nil)
 	if err != nil {
-		return nil, fmt.Errorf("harness: open block: %w", err)
+		return nil, clog, dry, fmt.Errorf("harness: open block: %w", err)
 	}
 	defer b.Close()
+	// as `thanos tools bucket rewrite` does: relabel modifier first, deletion modifier second
+	var mods []compactv2.Modifier
+	if rc := relabelConfigs(relabelKind); rc != nil {
+		mods = append(mods, compactv2.WithRelabelModifier(rc...))
+	}
+	mods = append(mods, compactv2.WithDeletionModifier(reqs...))
 	d, err := block.NewDiskWriter(context.Background(), logger, outDir)
 	if err != nil {
-		return nil, err
+		return nil, clog, dry, err
 	}
-	comp := compactv2.New(dir, logger, nopChanges{}, pool)
+	ch := &changes{}
+	comp := compactv2.New(dir, logger, ch, pool)
 	p := compactv2.NewProgressLogger(logger, len(all))
-	if err := comp.WriteSeries(context.Background(), []block.Reader{b}, d, p, compactv2.WithDeletionModifier(reqs...)); err != nil {
+	if err := comp.WriteSeries(context.Background(), []block.Reader{b}, d, p, mods...); err != nil {
 		_, _ = d.Flush()
-		return nil, fmt.Errorf("WriteSeries: %w", err)
+		return nil, clog, dry, fmt.Errorf("WriteSeries: %w", err)
 	}
 	if err := os.MkdirAll(outDir, 0o755); err != nil {
-		return nil, err
+		return nil, clog, dry, err
 	}
 	if _, err := d.Flush(); err != nil {
-		return nil, fmt.Errorf("Flush: %w", err)
+		return nil, clog, dry, fmt.Errorf("Flush: %w", err)
 	}
-	return readBlock(outDir)
+	if ch.del != nil {
+		clog = ch.del
+	}
+	if withDry {
+		// the same rewrite as a dry run: same change log, nothing written
+		dryID := ulid.MustNew(3, nil)
+		dryDir := filepath.Join(dir, dryID.String())
+		dd, err := block.NewDiskWriter(context.Background(), logger, dryDir)
+		if err != nil {
+			return nil, clog, dry, err
+		}
+		dch := &changes{}
+		dcomp := compactv2.NewDryRun(dir, logger, dch, pool)
+		if err := dcomp.WriteSeries(context.Background(), []block.Reader{b}, dd, compactv2.NewProgressLogger(logger, len(all)), mods...); err != nil {
+			_, _ = dd.Flush()
+			return nil, clog, dry, fmt.Errorf("dry run WriteSeries: %w", err)
+		}
+		_ = os.MkdirAll(dryDir, 0o755)
+		st, ferr := dd.Flush()
+		dl := []any{}
+		if dch.del != nil {
+			dl = dch.del
+		}
+		dry = map[string]any{"ran": true, "log": dl, "wrote": ferr == nil && (st.NumSeries > 0 || st.NumSamples > 0 || st.NumChunks > 0)}
+	}
+	res, err = readBlock(outDir)
+	return res, clog, dry, err
 }
 
 var _ = io.Discard
@@ -394,14 +472,20 @@ func TestC48(t *testing.T) {
 		defer os.RemoveAll(dir)
 		var cs []*concrete
 		jser, jreq := []any{}, []any{}
+		relabelKind := "none"
+		if k := vt.Str(g["relabel"]); k != "" {
+			relabelKind = k
+		}
 		for i, c := range vt.List(g["cases"]) {
-			x := concretise(vt.Case(vt.Map(c)), fmt.Sprint("c", i))
+			cc := vt.Case(vt.Map(c))
+			cc["relabel"] = relabelKind
+			x := concretise(cc, fmt.Sprint("c", i))
 			cs = append(cs, x)
 			jser = append(jser, x.jser...)
 			jreq = append(jreq, x.jreq...)
 		}
-		res, err := rewrite(dir, cs)
-		got := map[string]any{"err": "", "series": []any{}}
+		res, log, dry, err := rewrite(dir, cs, relabelKind, caseID%4 == 1)
+		got := map[string]any{"err": "", "series": []any{}, "log": log}
 		if err != nil {
 			got["err"] = err.Error()
 		} else {
@@ -416,16 +500,17 @@ func TestC48(t *testing.T) {
 			}
 			got["series"] = all
 		}
-		tr.Emit(vt.Event{"ev": "case", "case": caseID, "in": g, "kf": "", "n": len(cs), "series": jser, "reqs": jreq, "got": got})
+		tr.Emit(vt.Event{"ev": "case", "case": caseID, "in": g, "kf": "", "n": len(cs), "relabel": relabelKind, "series": jser, "reqs": jreq, "got": got, "dry": dry})
 	}
 	if rc := vt.Replay(t); rc != nil {
 		runGroup(rc)
 		return
 	}
 	var group []any
+	groupRelabel := "none"
 	flush := func() {
 		if len(group) > 0 {
-			runGroup(vt.Case{"cases": group})
+			runGroup(vt.Case{"cases": group, "relabel": groupRelabel})
 			group = nil
 		}
 	}
@@ -434,6 +519,7 @@ func TestC48(t *testing.T) {
 			c["scale"] = []int{1, 15000}[rnd.Intn(2)]
 		}
 		c["cseed"] = rnd.Int63n(1 << 30)
+		delete(c, "relabel") // the group carries it
 		group = append(group, map[string]any(c))
 		if len(group) >= size {
 			flush()
@@ -453,10 +539,33 @@ func TestC48(t *testing.T) {
 		}
 	}
 	flush()
+	// phase 2: relabel modifier before the deletion modifier (one TLC family per relabel kind)
+	for _, kind := range []string{"mapa", "dropb", "dropa2"} {
+		if p := os.Getenv("VERIF_CASES_REWRITEMCRELABEL" + strings.ToUpper(kind)); p != "" {
+			cs, err := vt.ReadNDJSON(p)
+			if err != nil {
+				t.Fatal(err)
+			}
+			groupRelabel = kind
+			for _, c := range cs {
+				add(c, 40)
+			}
+			flush()
+		}
+	}
+	groupRelabel = "none"
 	for i, n := 0, vt.Pick(400, 2000); i < n; i++ {
 		add(randCase(rnd, false), 10)
 	}
 	flush()
+	for _, kind := range []string{"dropenv", "mapjob", "dropdev"} {
+		groupRelabel = kind
+		for i, n := 0, vt.Pick(60, 600); i < n; i++ {
+			add(randCase(rnd, false), 10)
+		}
+		flush()
+	}
+	groupRelabel = "none"
 	for i, n := 0, vt.Pick(20, 100); i < n; i++ {
 		add(randCase(rnd, true), 1)
 	}
